@@ -141,6 +141,23 @@ def valTag (env : Env) (c : Str) : Validator → String
       | .recursionError => "v:json-rec"
       | .other => "v:json-other"
 
+/-- scripted `on_threat` adversaries: return, raise (several classes), raise depending on what the hook reads -/
+def mkHook : String → Option Hook
+  | "ok" => some fun _ _ => none
+  | "R" => some fun _ _ => some "RuntimeError"
+  | "K" => some fun _ _ => some "KeyError"
+  | "E" => some fun v _ => if v.totalBlocked % 2 = 0 then some "ValueError" else none
+  | "A" => some fun v r => if v.audit.getLast? == some r then none else some "AssertionError"
+  | _ => none
+
+/-- scripted `on_inflammation` adversaries -/
+def mkInnHook : String → Option InnHook
+  | "ok" => some fun _ _ => none
+  | "R" => some fun _ _ => some "RuntimeError"
+  | "K" => some fun _ _ => some "KeyError"
+  | "E" => some fun v _ => if v.checkCount % 2 = 0 then some "ValueError" else none
+  | _ => none
+
 def step (st : DSt) (toks : List String) : DSt × String :=
   let (args, table, _, js) := splitEnv toks
   match args with
@@ -151,16 +168,21 @@ def step (st : DSt) (toks : List String) : DSt × String :=
     let env := mkEnv table true js
     let content := decodeStr c
     let (m', o) := st.mem.filter env st.now content
-    match o with
-    | .raise k => ({ st with mem := m' }, s!"raise:{k} ## f:raise")
-    | .ok r =>
-      let tag := match r.reason with
-        | .rate => "f:rate" | .replay => "f:replay" | .scan => if r.allowed then "f:allow" else "f:block"
-      let tag2 := if r.reason = .scan ∧ r.matched.any (·.isRegex) then " f:rx-hit" else ""
-      let tag3 := if r.reason = .scan ∧ r.matched.any (fun s => !s.isRegex) then " f:sub-hit" else ""
-      let calls := if r.reason = .scan then rxCalls st.mem.active else []
-      ({ st with mem := m' },
-       s!"{showBool r.allowed} {r.level} m={showSigs r.matched} audit={m'.audit.length} last={showBool (m'.audit.getLast? == some r)} {memStats m'} rx={showRx calls} ## {tag}{tag2}{tag3}")
+    let r := o.decision
+    let tag := match r.reason with
+      | .rate => "f:rate" | .replay => "f:replay" | .scan => if r.allowed then "f:allow" else "f:block"
+    let tag2 := if r.reason = .scan ∧ r.matched.any (·.isRegex) then " f:rx-hit" else ""
+    let tag3 := if r.reason = .scan ∧ r.matched.any (fun s => !s.isRegex) then " f:sub-hit" else ""
+    let calls := if r.reason = .scan then rxCalls st.mem.active else []
+    let hooked := r.reason = .scan ∧ r.allowed = false ∧ st.mem.onThreat.isSome
+    let hk := if hooked then
+        s!"{m'.view.audit.length}/{showBool (m'.view.audit.getLast? == some r)}/{m'.view.totalBlocked}" else "-"
+    let tag4 := if hooked then (if o.raised.isSome then " h:raise" else " h:ok") else ""
+    let head := match o.raised with
+      | some k => s!"raise:hook:{k}"
+      | none => s!"{showBool r.allowed} {r.level} m={showSigs r.matched}"
+    ({ st with mem := m' },
+     s!"{head} audit={m'.audit.length} last={showBool (m'.audit.getLast? == some r)} {memStats m'} rx={showRx calls} hk={hk} ## {tag}{tag2}{tag3}{tag4}")
   | ["learn", s] =>
     let sg := parseSig s
     let compiles := match toks.dropWhile (· ≠ "@") with | _ :: "bad" :: _ => false | _ => true
@@ -180,6 +202,10 @@ def step (st : DSt) (toks : List String) : DSt × String :=
     let m' := st.mem.importAb (sigs.map parseSig)
     ({ st with mem := m' }, s!"ok ln={m'.learned.length}")
   | ["thr", t] => ({ st with mem := st.mem.setThreshold (natD t) }, "ok")
+  | ["thrattr", t] => ({ st with mem := st.mem.setThreshold (natD t) }, "ok")
+  | ["rate", r] => ({ st with mem := st.mem.setRate (if r = "none" then none else some (natD r)) }, "ok")
+  | ["adaptive", b] => ({ st with mem := st.mem.setAdaptive (boolOf b) }, "ok")
+  | ["hook", k] => ({ st with mem := st.mem.setHook (mkHook k) }, "ok")
   | ["addsig", s] => ({ st with mem := st.mem.addSig (parseSig s) }, "ok")
   | ["clearaudit"] => ({ st with mem := st.mem.clearAudit }, "ok")
   | ["adv", d] => ({ st with now := st.now + natD d }, "ok")
@@ -194,21 +220,32 @@ def step (st : DSt) (toks : List String) : DSt × String :=
     let (im', o) := st.inn.check env st.now content
     let calls := rxCalls st.inn.patterns
     let nj := jsonCalls env st.inn.validators content
+    let tail := s!"st={im'.inflLevel} tc={im'.triggerCount} cool={showBool (im'.cooling st.now)} cc={im'.checkCount} bc={im'.blockCount} rx={showRx calls} json={nj}"
     match o with
-    | .raise k => ({ st with inn := im' }, s!"raise:{k} cc={im'.checkCount} bc={im'.blockCount} rx={showRx calls} json={nj} ## c:raise")
+    | .raise k =>
+      if k.startsWith "hook:" then
+        -- the hook ran after the inflammation state was recorded and before the block counter
+        ({ st with inn := im' }, s!"raise:{k} {tail} hk={im'.inflLevel}/{im'.triggerCount}/{im'.checkCount}/{im'.blockCount} ## c:hook-raise")
+      else ({ st with inn := im' }, s!"raise:{k} {tail} hk=- ## c:raise")
     | .ok r =>
       let sevHit := !(maxLevel r.matched < st.inn.sevThreshold)
       let tag := if r.allowed then "c:allow"
         else if sevHit then "c:block-sev" else if r.errors ≠ [] then "c:block-err" else "c:block-acute"
       let tag2 := if r.matched = [] ∧ r.errors = [] ∧ r.level = lvlLow then " c:cooling-low" else ""
       let vt := r.errors.map (valTag env content)
+      let hooked := r.level > lvlNone ∧ st.inn.onInflammation.isSome
+      let hk := if hooked then
+          s!"{im'.inflLevel}/{im'.triggerCount}/{im'.checkCount}/{if r.allowed then im'.blockCount else im'.blockCount - 1}" else "-"
       ({ st with inn := im' },
-       s!"{showBool r.allowed} m={showSigs r.matched} err={r.errors.length} lvl={r.level} st={im'.inflLevel} tc={im'.triggerCount} cool={showBool (im'.cooling st.now)} cc={im'.checkCount} bc={im'.blockCount} rx={showRx calls} json={nj} ## {tag}{tag2} i:lvl{r.level} {joinSp vt}")
+       s!"{showBool r.allowed} m={showSigs r.matched} err={r.errors.length} lvl={r.level} {tail} hk={hk} ## {tag}{tag2} i:lvl{r.level} {joinSp vt}" ++ (if hooked then " c:hook-ok" else ""))
   | ["addpat", s] => ({ st with inn := st.inn.addPattern (parseSig s) }, "ok")
   | ["addval", v] =>
     match parseVal v with
     | some vv => ({ st with inn := st.inn.addValidator vv }, "ok")
     | none => (st, "bad-op")
+  | ["setvals", v] => ({ st with inn := st.inn.setValidators ((parseVals v).getD []) }, "ok")
+  | ["sevthr", t] => ({ st with inn := st.inn.setSevThreshold (natD t) }, "ok")
+  | ["ihook", k] => ({ st with inn := st.inn.setHook (mkInnHook k) }, "ok")
   | ["resetinfl"] => ({ st with inn := st.inn.resetInflammation }, "ok")
   | ["istats"] =>
     (st, s!"cc={st.inn.checkCount} bc={st.inn.blockCount} np={st.inn.patterns.length} nv={st.inn.validators.length} st={st.inn.inflLevel} tc={st.inn.triggerCount} cool={showBool (st.inn.cooling st.now)}")
